@@ -431,6 +431,14 @@ func runC09(c *Ctx) {
 			arg := ci.Common().Args[1]
 			ok := false
 			detail := Expr(arg)
+			// a same-package helper that returns a freshly allocated copy (childPath(path, name))
+			if call, isCall := arg.(*ssa.Call); isCall {
+				if g := staticCallee(&call.Call); g != nil && g.Pkg == f.Pkg && len(g.Blocks) > 0 {
+					au := NewAliasAudit(P)
+					ok = au.returnsFresh(g)
+					detail = fmt.Sprintf("%s returns a fresh slice=%v", fnName(g), ok)
+				}
+			}
 			if ac, isApp := isAppend(arg); isApp {
 				base := ac.Call.Args[0]
 				// the base must be a slice made in the loop, not the parameter
